@@ -64,7 +64,15 @@ RULE = ("streams: rules = the ENCODER RULES configured in latex_encoding.py (kee
         "(oracle: converted text, exact converter calls in order, error containment; Coq wrapper model where no user class occurs); coincide-default (ORACLE "
         "ONLY) = default converters under all five encoder and eight decoder option sets, in-place and copy mode, enc / dec / enc,dec / dec,enc: scope and "
         "types, EVERY visited text converted exactly as the same text standing alone in a one-field control library whose names differ from it, and "
-        "decode(encode(.)) = identity on the blocks within the third party's reach. distinct = "
+        "decode(encode(.)) = identity on the blocks within the third party's reach; urlrun / urlrun-rules (TEST, appended last, props/c18_urlrun.py) = texts whose "
+        "ENCODED form puts several brace groups on ONE blank-free run: a URL (http / https / ftp / www, bare, with _ #, with % ~ &) followed DIRECTLY by a "
+        "character whose encoding is not a blank (NO-BREAK SPACE -> ~, EN SPACE and the other Unicode spaces, zero-width characters, soft hyphen, punctuation, "
+        "closing brackets, quotes) followed by text whose encoding has braces (sharp s, o-slash, L-stroke, ae, A-ring, dotless i, accented letters, literal { }, "
+        "& % # _ ~ backslash, a SECOND URL, one math span) or by plain text / nothing, in 20 layouts (URL first / last / between, in parentheses / brackets / "
+        "quotes, between words, two and three URLs, two such runs, doubled separator, after a math span, at a sentence end): NBSP x tail class x layout "
+        "bounded-exhaustive, the other separators with rotating layouts, plus random; urlrun = round trip in a field, NameParts words and an @string (default "
+        "options, one case in five another option set), urlrun-rules = the encoder's output against Model/LatexRules.v plus the round trip of the field; "
+        "characters beyond the named alphabet are demanded only where pristine pylatexenc round-trips the text. distinct = "
         "distinct (stream, input); non-trivial = some visited text is changed by the converter or fails")
 TRUSTED = ["the encoder RULES of latex_encoding.py are modelled (Model/LatexRules.v, op 121); pylatexenc's default conversion of one "
            "character enters that model as an oracle (in the proofs: an arbitrary function enc_char; in the correspondence: a table "
@@ -605,6 +613,10 @@ def generate(rng, tier):
     # coincidences between a text and a key / name / type / value / metadata of the same library, appended last (props/c18_coincide.py)
     from props import c18_coincide
     cases.extend(c18_coincide.generate(rng, quick))
+    # several brace groups on ONE blank-free run of the encoded text: URL + no-break space / punctuation / zero-width character + text
+    # whose encoding has braces, appended last (props/c18_urlrun.py)
+    from props import c18_urlrun
+    cases.extend(c18_urlrun.generate(rng, quick, ACCENTED, FORBIDDEN))
     return cases
 
 
@@ -1288,6 +1300,19 @@ def k12_class(text):
     return (not allowed_text(text)) or any(c in ACCENTED_SET and c in third_party_not_injective() for c in text)
 
 
+def url_changes_when_read_as_latex(url):
+    """K6, as narrowly as the input tells: the wrapped URL is handed to the LaTeX parser - does PRISTINE pylatexenc (no repository
+    code; math kept verbatim, the decoding middleware's default) reading it as LaTeX return something else than the URL?  A URL
+    whose specials all sit inside a complete $...$ span (`http://a.b/c,$x_1$`: a URL directly followed by punctuation and a math
+    span is ONE blank-free run for the URL rule) comes back as it is: a change that breaks it is reported (narrowed in seeding
+    round 12; before, every URL match holding one of % ~ & { } \\ $ was of the class)"""
+    pristine_roundtrips("")
+    try:
+        return _PRISTINE[2].latex_to_text("{" + url + "}") != url
+    except Exception:  # noqa: BLE001
+        return True
+
+
 def rt_known_class(text, keep_math, enclose_urls):
     # K5 = several spans: at least three dollars that can open / close a span - counted as the rule's one-character look-behind
     # counts them OR as TeX / the decoder counts them (a dollar after a DOUBLE backslash is escaped for the former, a delimiter
@@ -1300,13 +1325,24 @@ def rt_known_class(text, keep_math, enclose_urls):
     if enclose_urls:
         for rx in URL_RE:
             for m in rx.finditer(text):
-                if any(c in m.group(1) for c in "%~&{}\\$"):
+                if any(c in m.group(1) for c in "%~&{}\\$") and url_changes_when_read_as_latex(m.group(1)):
                     return "K6"
     if k12_class(text) and not pristine_roundtrips(text):
         # K12, as narrowly as the input tells: a text of the class that PRISTINE pylatexenc (no repository code) does not give
         # back either.  `a'b` or `- -` are of the class by their characters but round-trip: a change that breaks them is reported.
-        return "K12"
+        # Narrowed in seeding round 12: a letter of the class INSIDE a wrapped URL (`http://a.b/c,` + U+0166: the URL rule takes the
+        # whole blank-free run) goes raw into \url{...} and comes back: the text must be of the class without those letters, too
+        rest = without_class_letters_in_wrapped_urls(text) if enclose_urls else text
+        if rest == text or (k12_class(rest) and not pristine_roundtrips(rest)):
+            return "K12"
     return None
+
+
+def without_class_letters_in_wrapped_urls(text):
+    bad = third_party_not_injective()
+    for rx in URL_RE:
+        text = rx.sub(lambda m: "".join(c for c in m.group(1) if not (c in ACCENTED_SET and c in bad)), text)
+    return text
 
 
 def impl_roundtrip(case):
@@ -1331,7 +1367,8 @@ def impl_roundtrip(case):
     sp_tags = sparse_tags(inp["sparse"]) if inp.get("sparse") else []
     if any(c in bad and c not in ACCENTED_SET for c in text) or (inp.get("pristine") and not pristine_roundtrips(text)):
         rec["oracle"] = {"ok": True, "detail": ""}
-        rec["tags"] = ["roundtrip:excluded-third-party-noninjective"] + (["sparse:excluded-third-party-noninjective"] if sp_tags else [])
+        rec["tags"] = ["roundtrip:excluded-third-party-noninjective"] + (["sparse:excluded-third-party-noninjective"] if sp_tags else []) + \
+            (["urlrun:excluded-third-party-noninjective", "urlrun:excluded:sep:" + inp["urlrun"]["sep_class"]] if inp.get("urlrun") else [])
         rec["nontrivial"] = False
         rec["summary"] = "excluded"
         return rec
@@ -1373,8 +1410,12 @@ def impl_roundtrip(case):
         rec["tags"] = ["roundtrip-fail:" + (known or "UNKNOWN")]
     else:
         rec["tags"] = ["roundtrip:ok"] + (["roundtrip:k12-stream-ok"] if inp.get("k12") else []) + (["roundtrip:letter-sweep"] if inp.get("drop") and not inp.get("pristine") else []) + \
-            (["roundtrip:escaped-special-inside-math"] if inp.get("pristine") and not sp_tags else [])
+            (["roundtrip:escaped-special-inside-math"] if inp.get("pristine") and not sp_tags and not inp.get("urlrun") else [])
     if sp_tags:
         rec["tags"] = rec["tags"] + sp_tags + ["sparse:ok" if ok else "sparse-fail:" + (rec["oracle"].get("known") or "UNKNOWN")]
+    if inp.get("urlrun"):
+        from props import c18_urlrun
+        rec["tags"] = rec["tags"] + c18_urlrun.tags(inp["urlrun"], mid[1], ok, rec["oracle"].get("known"),
+                                                    rt_known_class(text, km is not False, eu is not False) if ok else None)
     rec["summary"] = repr(mid[1])[:200]
     return rec
